@@ -91,12 +91,6 @@ def run_sequences(ctx, res, prop, seqs, label, strace=False, extra_fds=()):
         apply_verdict(res, prop, out, known, counters)
         if prop in ("C04", "ALL") or True:
             fb = F.check_files(out)
-            if out.get("lost_builtin_text") and prop == "C04":
-                if "captured-builtin-last-stage" in known:
-                    res.known("captured-builtin-last-stage", "class=captured-builtin-last-stage what=%s observed=file %s lacks the text of the builtin: %s" % (
-                        known["captured-builtin-last-stage"].get("what", "")[:90], out["lost_builtin_text"][0], out["line"][-160:]))
-                else:
-                    fb = fb + [(nm, "text of the builtin", "missing") for nm in out["lost_builtin_text"]]
             res.extra["files_compared"] = res.extra.get("files_compared", 0) + len(out.get("files_full", {}))
             if fb and prop == "C04":
                 if counters["viol"] < 4:
